@@ -1,22 +1,7 @@
-(* The ported tree iterator (Mkvs/Iter.v) against the specification iterator.
-
-   FULL STATEMENT (not closed yet):
-     doNext_refines_seek :
-       forall t k, wf t -> valid_bytes k -> port_iter k t = al_seek k (contents t).
-   What is proved here:
-   * [doNext_refines_seek_partial]: the statement for EVERY tree whose key set is
-     a subset of the 10-key adversarial universe [iter_universe] (empty key,
-     prefix keys, keys crossing byte boundaries: 1024 trees) and every seek key
-     of [iter_seeks] (present keys, gaps, shorter and longer keys: 23 keys),
-     Seek followed by Next until invalid, by exhaustive evaluation inside Coq;
-   * [port_run_eq_spec_run]: IF the full statement holds on the trees a history
-     reaches, the runner evaluated by the correspondence check ([s_run_p], ported
-     iterator) is the runner of the refinement theorems ([s_run]).
-   What is missing for the full statement: the order lemmas for the synthetic
-   keys built by AppendBit / Split (zero padding up to the node depth), i.e.
-   "an entry below the node is >= key iff it is >= the padded key" and
-   "advanceKeyToRight(key) <= every entry of the right subtree, or > all of
-   them when key is above the subtree", for arbitrary depths. *)
+(* The ported tree iterator (Mkvs/Iter.v) against the specification iterator:
+   finite-domain instance by exhaustive evaluation inside Coq (a regression of
+   the port), and the conditional bridge between the two runners.  The general
+   theorem doNext_refines_seek is proved in Mkvs/IterLift.v. *)
 From Verif Require Import Lib.Base Mkvs.Trie Mkvs.BitsProofs Mkvs.AlistProofs Mkvs.TrieProofs
   Mkvs.Key Mkvs.Overlay Mkvs.OverlayProofs Mkvs.Iter.
 
